@@ -147,10 +147,14 @@ def _run_tree(script, res, trace):
             res.bump('duplicate_skipped')
             continue
         old_head = cs.current_chain_hash
-        if validated:
-            cs = cs.add_block(blk, ts)
-        else:
-            cs = cs.add_block_no_validation(blk)
+        try:
+            if validated:
+                cs = cs.add_block(blk, ts)
+            else:
+                cs = cs.add_block_no_validation(blk)
+        except Exception as e:
+            res.violate(PROP, 'C04/arrival-raised', 'adding a block assembled by the node on a stored parent raised %s' % type(e).__name__)
+            return
         chain.add(blk)
         stored.append(bid)
         res.events += 1
